@@ -58,6 +58,11 @@ std::vector<u64> double_values(bool th)
   for( u64 sg = 0; sg < 2; ++sg ) for( u64 ex : { 0ull, 1ull, 1023ull - 60, 1023ull - 20, 1023ull - 17, 1023ull - 16, 1023ull - 1, 1023ull, 1023ull + 1, 1023ull + 15, 1023ull + 16, 1023ull + 30, 1023ull + 31, 1023ull + 46, 1023ull + 47, 1023ull + 52, 1023ull + 62, 1023ull + 63, 1023ull + 64, 2046ull, 2047ull } )
     for( u64 hi = 0; hi < (1ull << w); ++hi ) for( u64 lo = 0; lo < (1ull << w); ++lo ) for( u64 fill : { 0ull, (1ull << (52 - 2*w)) - 1 } )
       v.push_back((sg << 63) | (ex << 52) | (hi << (52 - w)) | (fill << w) | lo);
+  // long significands (no structure: mantissas of pi, sqrt 2, the golden ratio, alternating bits) at every third exponent in 2^-40 .. 2^40:
+  // results that need a rounding decision in the last place (double rounding through a wider format shows only there)
+  for( u64 sg = 0; sg < 2; ++sg ) for( u64 ex = 1023 - 40; ex <= 1023 + 40; ex += 3 )
+    for( u64 m : { 0x921fb54442d18ull, 0x6a09e667f3bcdull, 0x9e3779b97f4a8ull, 0x5555555555555ull, 0xfffffffffffffull, 0x3333333333333ull, 0x0000000000001ull } )
+      v.push_back((sg << 63) | (ex << 52) | m);
   std::sort(v.begin(), v.end()); v.erase(std::unique(v.begin(), v.end()), v.end());
   return v;
   }
@@ -72,6 +77,9 @@ void explore16(Options const& o, std::vector<Shim*> const& shims, std::vector<Sh
   { std::string d = "a in S' u D (digit-pattern words), |S' u D|=" + std::to_string(Sa.size()) + "; operand values per type:"; for( int t : ALL_TYPES ) d += std::string(" ") + TN[t] + "=" + std::to_string(tv[t].size());
     rec.note("alphabet", d + "; x 4 operators x {a op t, t op a, a op= t}"); }
   C16 c(rec);
+  std::vector<i64> MULT_K;
+  for( int e = 0; e <= 44; ++e ) for( i64 k : std::vector<i64>{ (1ll << e) - 1, 1ll << e, (1ll << e) + 1, 3ll << e, (7ll << e) - 1 } ) { if( k > 0 ) { MULT_K.push_back(k); MULT_K.push_back(-k); } }
+  std::sort(MULT_K.begin(), MULT_K.end()); MULT_K.erase(std::unique(MULT_K.begin(), MULT_K.end()), MULT_K.end());
   for( size_t ci = 0; ci < shims.size(); ++ci )
     {
     Shim* s = shims[ci];
@@ -83,20 +91,25 @@ void explore16(Options const& o, std::vector<Shim*> const& shims, std::vector<Sh
       parallel_blocks(ts.size(), o.threads, [&](size_t it, int) {
         LocalViol lv(rec); u64 l_prom = 0, l_exact = 0, l_dbl = 0, l_asg = 0, l_skip = 0;
         u64 tb = ts[it];
-        size_t N = Sa.size();
+        // besides S' u D: exact multiples k*n of an integral operand (k with S-shaped and all-ones significands), +-1: where a quotient
+        // computed through a reciprocal or a rounded product is one unit short although the division is exact
+        std::vector<i64> AA = Sa;
+        if( is_int_type(t) && int_value(t, tb) != 0 )
+          { i128 nn = int_value(t, tb); for( i64 k : MULT_K ) for( int d = -1; d <= 1; ++d ) { i128 a = static_cast<i128>(k) * nn + d; if( a > -(static_cast<i128>(1) << 52) && a < (static_cast<i128>(1) << 52) ) AA.push_back(static_cast<i64>(a)); } }
+        size_t N = AA.size();
         std::vector<u64> r_ft(N), r_tf(N), r_as(N);
         std::vector<i64> e_ft(N), e_tf(N), convs;
         int sig = guarded([&]{
-          s->fm_mixed_col(op, t, O_FIX_T, Sa.data(), N, tb, r_ft.data());
-          s->fm_mixed_col(op, t, O_T_FIX, Sa.data(), N, tb, r_tf.data());
-          if( t != T_F64 ) s->fm_mixed_col(op, t, O_ASSIGN, Sa.data(), N, tb, r_as.data());
+          s->fm_mixed_col(op, t, O_FIX_T, AA.data(), N, tb, r_ft.data());
+          s->fm_mixed_col(op, t, O_T_FIX, AA.data(), N, tb, r_tf.data());
+          if( t != T_F64 ) s->fm_mixed_col(op, t, O_ASSIGN, AA.data(), N, tb, r_as.data());
           });
         u64 obase = ob | (static_cast<u64>(t) << 52) | (static_cast<u64>(op) << 48) | (static_cast<u64>(it) << 16);
         auto mk = [=](int ord, i64 a, std::string e, std::string g) { return ex1(s, std::string("operator ") + OPC[op] + " (" + ORDS[ord] + ")", TN[t], {{"a",to_s(a)},{"t",C16::tval(t, tb)}}, e, g, "mix", {to_s(t), to_s(op), to_s(ord), to_s(a), to_su(tb)}); };
         if( sig )
           {   // locate the trapping element
           for( size_t i = 0; i < N; ++i ) for( int ord = 0; ord < (t == T_F64 ? 2 : 3); ++ord )
-            { i64 a = Sa[i]; int sg = guarded([&]{ s->fm_mixed(op, t, ord, a, tb); });
+            { i64 a = AA[i]; int sg = guarded([&]{ s->fm_mixed(op, t, ord, a, tb); });
               if( sg ) lv.hit(c.c_trap, obase | i, [=]{ return mk(ord, a, "returns normally", "killed by signal " + std::to_string(sg)); }); }
           return;
           }
@@ -105,7 +118,7 @@ void explore16(Options const& o, std::vector<Shim*> const& shims, std::vector<Sh
           double d = bits_d(tb);
           for( size_t i = 0; i < N; ++i )
             {
-            i64 a = Sa[i];
+            i64 a = AA[i];
             double da = bits_d(s->fm_to_fp(TF_STATIC_CAST, T_F64, a));
             u64 e1 = d_bits(ieee(op, da, d)), e2 = d_bits(ieee(op, d, da));
             ++l_dbl;
@@ -123,12 +136,12 @@ void explore16(Options const& o, std::vector<Shim*> const& shims, std::vector<Sh
             {
             i64 cv = is_int ? s->fm_from_int(FI_CTOR, t, tb) : s->fm_from_fp(FF_CTOR, T_F32, tb);
             convs.assign(N, cv);
-            int sg2 = guarded([&]{ s->fm_bin_batch(BINOP[op], Sa.data(), convs.data(), N, e_ft.data()); s->fm_bin_row(BINOP[op], cv, Sa.data(), N, e_tf.data()); });
+            int sg2 = guarded([&]{ s->fm_bin_batch(BINOP[op], AA.data(), convs.data(), N, e_ft.data()); s->fm_bin_row(BINOP[op], cv, AA.data(), N, e_tf.data()); });
             have_prom = sg2 == 0;
             }
           for( size_t i = 0; i < N; ++i )
             {
-            i64 a = Sa[i];
+            i64 a = AA[i];
             i64 g_ft = static_cast<i64>(r_ft[i]), g_tf = static_cast<i64>(r_tf[i]), g_as = static_cast<i64>(r_as[i]);
             // a op= t must leave a equal to a op t
             ++l_asg;
@@ -147,7 +160,7 @@ void explore16(Options const& o, std::vector<Shim*> const& shims, std::vector<Sh
           }
         std::lock_guard<std::mutex> g(m); n_prom += l_prom; n_exact += l_exact; n_dbl += l_dbl; n_asg += l_asg; n_skipped += l_skip;
         });
-      u64 n = static_cast<u64>(ts.size()) * Sa.size() * (t == T_F64 ? 2 : 3);
+      u64 n = static_cast<u64>(ts.size()) * (Sa.size() + 3 * MULT_K.size()) * (t == T_F64 ? 2 : 3);
       rec.add_states(n, n * 2, n_prom + n_exact + 2 * n_dbl + n_asg);
       rec.count("branch.compared_with_promoted", n_prom); rec.count("branch.compared_with_exact_integer", n_exact); rec.count("branch.compared_with_ieee_double", 2 * n_dbl);
       rec.count("branch.compound_vs_binary", n_asg); rec.count("branch.operand_does_not_convert_(promotion_clause_not_applicable)", n_skipped);
